@@ -126,6 +126,11 @@ RSD2 = "((self.b + 1) / (self.b - 1) * self.lnb - 1) / self.m"
 def formula_rule(ctx, fid, fn, rf, sf, R):
     """FORMULA: the estimate is m(1-1/b) / (a ln(b) SUM_i b^(-K_i)) as a rational function of the fields and the register sum,
     and the summed term is b^(-K): exp(-K ln b) or b.powf(-K)"""
+    early = [x for x in user_nodes(fn) if x["k"] == "Ret" and not hirq.from_expansion(x)]
+    if early:
+        ctx.violation("FORMULA", fid, "estimate bypassed", hirq.loc(early[0]),
+                      "`return %s` (when %s) hands back something else than the closed form: the estimate must be the formula for every state of the registers, "
+                      "however they were reached (sketch, merge, reinit)" % (nf.nf(early[0]["e"], True)[:50] if "e" in early[0] else "", nf.control_facts(tree_of(fn), early[0])[:1]))
     want = ratfn.parse(CARD)
     if ratfn.equal(rf, want):
         ctx.ok("FORMULA", fid, "estimate == %s (equality of rational functions; found %s)" % (CARD, ratfn.show(rf)[:90]), hirq.loc(fn))
@@ -324,3 +329,5 @@ def run(ctx, facts):
     C04._resetbefore(ctx, facts, C04.SS + "sketch")
     ctx.rule("EXIT", C04.RULES["EXIT"])
     C04._exit_setsketch(ctx, facts)
+    ctx.rule("SKIP", C04.RULES["SKIP"])
+    C04.skip_rule(ctx, facts, C04.SS + "sketch")
